@@ -19,6 +19,8 @@ FILES = [
     "lerax/distribution/squashed_normal.py", "lerax/distribution/squashed_multivariate_normal.py", "lerax/policy/actor.py", "lerax/policy/q/base_q.py", "lerax/policy/sac/mlp.py",
     "lerax/env/unitree/g1/randomize.py", "lerax/env/unitree/g1/gait.py", "lerax/env/unitree/g1/base_g1.py", "lerax/env/unitree/g1/locomotion.py",
     "lerax/env/unitree/g1/standing.py", "lerax/env/unitree/g1/standup.py",
+    "lerax/env/classic_control/mountain_car.py", "lerax/env/classic_control/continuous_mountain_car.py", "lerax/env/classic_control/acrobot.py",
+    "lerax/env/classic_control/pendulum.py", "lerax/env/classic_control/cartpole.py", "lerax/env/mujoco/ant.py", "lerax/env/mujoco/humanoid.py", "lerax/env/mujoco/hopper.py",
 ]
 PROPS_OF = {
     "lerax/buffer/rollout.py": ["C03", "C09"], "lerax/buffer/replay.py": ["C06"], "lerax/buffer/base_buffer.py": ["C09", "C06"],
@@ -35,7 +37,10 @@ PROPS_OF = {
     "lerax/distribution/multi_categorical.py": ["C15", "C16"], "lerax/distribution/squashed_normal.py": ["C15"], "lerax/distribution/squashed_multivariate_normal.py": ["C15"],
     "lerax/policy/actor.py": ["C16"], "lerax/policy/q/base_q.py": ["C16"], "lerax/policy/sac/mlp.py": ["C16"],
     "lerax/env/unitree/g1/randomize.py": ["C20"], "lerax/env/unitree/g1/gait.py": ["C20"], "lerax/env/unitree/g1/base_g1.py": ["C20"],
-    "lerax/env/unitree/g1/locomotion.py": ["C20"], "lerax/env/unitree/g1/standing.py": ["C20"], "lerax/env/unitree/g1/standup.py": ["C20"],
+    "lerax/env/unitree/g1/locomotion.py": ["C20", "C02"], "lerax/env/unitree/g1/standing.py": ["C20"], "lerax/env/unitree/g1/standup.py": ["C20"],
+    "lerax/env/classic_control/mountain_car.py": ["C02", "C17"], "lerax/env/classic_control/continuous_mountain_car.py": ["C02", "C17"], "lerax/env/classic_control/acrobot.py": ["C02", "C17"],
+    "lerax/env/classic_control/pendulum.py": ["C02"], "lerax/env/classic_control/cartpole.py": ["C02", "C17"], "lerax/env/mujoco/ant.py": ["C02", "C17"], "lerax/env/mujoco/humanoid.py": ["C02", "C17"],
+    "lerax/env/mujoco/hopper.py": ["C02", "C17"],
 }
 
 
